@@ -1,5 +1,5 @@
 (** C03 - decode and composition timing in the file equals the submitted timestamps. *)
-From Coq Require Import Sorting.Sorted.
+From Coq Require Export Sorting.Sorted.
 From Muxide Require Export Model.Base Model.Boxes Model.Writer Model.Api Spec.Reader Spec.Layout
   Proofs.TableProofs Proofs.TimingProofs.
 Open Scope N_scope.
